@@ -83,6 +83,10 @@ static void h_op(void)
   } else if (!strcmp(op, "pokeraw")) {   /* test hook: force the table word the next draw will temper */
     if (R->type == eslRND_MERSENNE) { if (R->mti >= 624) esl_random_uint32(R); R->mt[R->mti] = (uint32_t) h_argu("w", 0); }
     h_out("ok");
+  } else if (!strcmp(op, "pokeraw64")) { /* test hook: force the table word the next 64-bit draw will temper */
+    if (R64->mti >= 312) esl_rand64(R64);
+    R64->mt[R64->mti] = h_argu("w", 0);
+    h_out("ok");
   } else if (!strcmp(op, "new64")) {
     if (R64) esl_rand64_Destroy(R64);
     R64 = esl_rand64_Create(h_argu("seed", 1));
